@@ -1,7 +1,11 @@
 #!/bin/bash
-# development helper: mirror /verif (sources only) into /tmp/vdev with the harness pointing at a
-# clean scratch worktree /tmp/repo-clean, so that machinery can be developed while /repo is busy.
-rsync -a --exclude target --exclude 'target-*' --exclude .git --exclude evidence --exclude replays --exclude harness/Cargo.toml /verif/ /tmp/vdev/
-sed 's|path = "/repo"|path = "/tmp/repo-clean"|' /verif/harness/Cargo.toml > /tmp/vdev/harness/Cargo.toml.new
-cmp -s /tmp/vdev/harness/Cargo.toml.new /tmp/vdev/harness/Cargo.toml || cp /tmp/vdev/harness/Cargo.toml.new /tmp/vdev/harness/Cargo.toml
-rm -f /tmp/vdev/harness/Cargo.toml.new
+# development helper: mirror /verif (sources only) into /tmp/vdev$1 with the harness pointing at a
+# clean scratch worktree /tmp/repo-clean$1, so that machinery can be developed / seeded changes
+# evaluated while /repo is busy.   usage: tools/devsync.sh [suffix]
+SFX=${1:-}
+[ -d /tmp/repo-clean$SFX ] || git -C /repo worktree add --detach /tmp/repo-clean$SFX HEAD >/dev/null 2>&1
+rsync -a --exclude target --exclude 'target-*' --exclude .git --exclude evidence --exclude replays --exclude harness/Cargo.toml /verif/ /tmp/vdev$SFX/
+sed "s|path = \"/repo\"|path = \"/tmp/repo-clean$SFX\"|" /verif/harness/Cargo.toml > /tmp/vdev$SFX/harness/Cargo.toml.new
+cmp -s /tmp/vdev$SFX/harness/Cargo.toml.new /tmp/vdev$SFX/harness/Cargo.toml || cp /tmp/vdev$SFX/harness/Cargo.toml.new /tmp/vdev$SFX/harness/Cargo.toml
+rm -f /tmp/vdev$SFX/harness/Cargo.toml.new
+mkdir -p /tmp/vdev$SFX/evidence
